@@ -271,6 +271,35 @@ pub fn direct(ctx: &mut Ctx) {
     if ctx.thorough() {
         ctx.exhaustive.push("all 2^31-1 generator states (first step), 5 ranges, shuffle lengths {1,2,3,5,10,64}".into());
     }
+    // shuffles longer than 2^24 elements (where `len as f32` is no longer `len`): the index drawn at a critical state
+    // (ratio == 1, the draw returns the upper end) must still be below the length.  Lengths whose conversion rounds UP.
+    let long_lens: Vec<usize> = if ctx.thorough() { vec![(1 << 24) + 3, (1 << 24) + 7, (1 << 24) + 1, (1 << 25) + 6, (1 << 24) + 2] } else { vec![(1 << 24) + 3, (1 << 24) + 7] };
+    let long_states: Vec<u64> = vec![M - 1, M - 2, 1];
+    let jobs: Vec<(usize, u64)> = long_lens.iter().flat_map(|l| long_states.iter().map(move |s| (*l, *s))).collect();
+    let bad_long: Vec<(u64, String)> = jobs
+        .par_iter()
+        .filter_map(|(len, state)| {
+            let seed = seed_for_state(*state);
+            let len = *len;
+            let r = std::panic::catch_unwind(|| {
+                let mut g = Generator::create(seed);
+                let mut v: Vec<usize> = (0..len).collect();
+                g.shuffle(&mut v);
+                let mut seen = vec![false; len];
+                v.len() == len && v.iter().all(|x| *x < len && !std::mem::replace(&mut seen[*x], true))
+            });
+            match r {
+                Ok(true) => None,
+                Ok(false) => Some((*state, format!("shuffle of length {} is not a permutation", len))),
+                Err(_) => Some((*state, format!("shuffle of length {} panics", len))),
+            }
+        })
+        .collect();
+    ctx.direct_evals += jobs.len() as u64;
+    ctx.direct_distinct += jobs.len() as u64;
+    ctx.oracle_checks += jobs.len() as u64;
+    ctx.notes.push(format!("long shuffles (lengths {:?}, first draw at states {:?}): {} failing", long_lens, long_states, bad_long.len()));
+    let bad: Vec<(u64, String)> = bad.into_iter().chain(bad_long.into_iter()).collect();
     for (state, what) in bad.iter().take(5) {
         ctx.failures.push(Failure {
             request: String::new(),
